@@ -21,9 +21,11 @@ GOOD = [["1", "ab"], ["2", "c"], ["3", "xyz"], ["42", "ab"], ["0", "c"], ["7", "
 ALLOWED = [("Allowed characters", "32, 48...57, 97...122")]  # blank, digits, lower-case letters: header rows hold other characters
 
 
-def build_table(header, data_rows, bad_at, bad_kind, multiline_header=False, allowed=False):
+def build_table(header, data_rows, bad_at, bad_kind, multiline_header=False, allowed=False, blank_header=False):
     # a header record may span several physical lines (quoted line breaks) and hold quotes: it is still one row
     header_row = ["h\nd", 'h"d\r\nr'] if multiline_header else (["H!", "#D~"] if allowed else ["hd", "hdr"])
+    if blank_header:
+        header_row = ["", ""]  # a spacer row of empty cells is a row like any other
     table = [list(header_row) for _ in range(header)] + [list(GOOD[i % len(GOOD)]) for i in range(data_rows)]
     if bad_at is not None:
         if bad_kind == "cell":
@@ -34,6 +36,8 @@ def build_table(header, data_rows, bad_at, bad_kind, multiline_header=False, all
             table[bad_at - 1] = ["5"]
         elif bad_kind == "long":
             table[bad_at - 1] = ["5", "ab", "zz"]
+        elif bad_kind == "blank":  # a row of empty cells only (spreadsheet formats)
+            table[bad_at - 1] = ["", ""]
         elif bad_kind == "char":  # a character outside the allowed range (only with an allowed-characters declaration)
             table[bad_at - 1] = ["5", "aB"]
     return table
@@ -58,7 +62,7 @@ def judge(case, part):
     config = {"preset": case["preset"], "header": case["header"], "fields": FIELDS, "checks": []}
     decls = readermachine.decls_for(config)
     header, limit, bad_at, bad_kind = case["header"], case["limit"], case["bad_at"], case["bad_kind"]
-    table = build_table(header, case["rows"], bad_at, bad_kind, case.get("multiline_header", False), case.get("allowed", False))
+    table = build_table(header, case["rows"], bad_at, bad_kind, case.get("multiline_header", False), case.get("allowed", False), case.get("blank_header", False))
     if case.get("allowed"):
         config["extra"] = ALLOWED
     rejects = bad_at is not None and bad_at > header and (limit is None or bad_at <= limit)
@@ -191,7 +195,17 @@ def enumerate_cases(preset, header, max_rows=6):
                         pass
                     cases.append({"preset": preset, "header": header, "rows": rows, "limit": limit, "bad_at": bad_at, "bad_kind": kind})
     if preset in ("ods", "excel"):
-        return cases
+        # rows of empty cells: as header rows (spacer lines) and as the bad row; an xlsx sheet ends with its last non-empty row
+        extra = [dict(case, blank_header=True) for case in cases if header and (case["rows"] > 0 or preset == "ods")]
+        for case in cases:
+            if case["bad_kind"] == "cell" and (preset == "ods" or case["bad_at"] < header + case["rows"]):
+                extra.append(dict(case, bad_kind="blank"))
+        return cases + extra
+    if preset == "delimited" and header in (0, 2) and max_rows >= 6:
+        # limits beyond 256 (small integers are special in CPython): a few large tables
+        for limit in (255, 256, 257, 280):
+            for bad_at in (limit, limit + 1, limit + 2, 300 + header):
+                cases.append({"preset": preset, "header": header, "rows": 300, "limit": limit, "bad_at": bad_at, "bad_kind": "cell", "cli": bad_at != limit + 2})
     # with an allowed-characters declaration: header rows and rows behind the limit may hold any character
     cases += [dict(case, allowed=True, bad_kind="char" if case["bad_kind"] == "cell2" else case["bad_kind"]) for case in cases if case["rows"] <= 4 and case["bad_kind"] in (None, "cell", "cell2")]
     if preset == "delimited" and header:
